@@ -436,32 +436,13 @@ func c19ChainID(c *rep.Ctx) {
 		c.Check("chainid-version-prefix", "types.ChainIdVersion~types.DecodeChainIdVersion", f.Pos(), ok && mk && dec && order != nil && order == dorder,
 			"the version prefix is written as a 32-bit integer into versionByteSize(=4) bytes and read back as a 32-bit integer with the same byte order")
 	}
-	// MakeChainId: every slice bound is versionByteSize
-	for _, fn := range []string{"types.MakeChainId", "types.ChainIdEqualWithoutVersion"} {
-		f := c.Fn(fn)
-		if f == nil {
-			continue
-		}
-		info := f.Info()
-		n, bad := 0, 0
-		ast.Inspect(f.Body, func(m ast.Node) bool {
-			se, ok := m.(*ast.SliceExpr)
-			if !ok {
-				return true
-			}
-			for _, b := range []ast.Expr{se.Low, se.High} {
-				if b == nil {
-					continue
-				}
-				n++
-				if tv, has := info.Types[b]; !has || tv.Value == nil || tv.Value.ExactString() != size {
-					bad++
-				}
-			}
-			return true
-		})
-		c.Check("chainid-version-prefix", fn, f.Pos(), n >= 2 && bad == 0, "every slice bound separating version and remainder equals versionByteSize ("+itoa(n)+" bounds)")
-	}
+	// The instances `chainid-version-prefix|types.MakeChainId` and
+	// `|types.ChainIdEqualWithoutVersion` ("every constant slice bound equals
+	// versionByteSize") were removed: they accepted a bound of 4 in either
+	// position (`cid[:4]` for `cid[4:]` passed) and refused a harmless explicit
+	// upper bound (`cid[4:len(cid)]`).  Rule chainid-remainder (c19_gap.go,
+	// c19GapChainIDRemainder) decides the same clause exactly: which operand is
+	// sliced, on which side, by versionByteSize, and what the slices are used for.
 	if f := c.Fn("types.MakeChainId"); f != nil {
 		// the new id is: version bytes of v, then the old remainder; same length
 		info := f.Info()
@@ -475,7 +456,7 @@ func c19ChainID(c *rep.Ctx) {
 		}
 		c.Check("chainid-version-prefix", "types.MakeChainId|version", f.Pos(), okV, "the prefix is ChainIdVersion of the version parameter")
 	}
-	c.Floor("chainid-version-prefix", 4)
+	c.Floor("chainid-version-prefix", 2)
 
 	// genesis-codec: Bytes and GetGenesisFromBytes use the two halves of one codec on a Genesis value
 	gobj := p.LookupObj("types", "Genesis")
@@ -1050,6 +1031,8 @@ func c19Merkle(c *rep.Ctx) {
 								if an.ObjOf(info, l) == nobj {
 									if x.Tok == token.DEFINE && i < len(x.Rhs) && isLenSrc(x.Rhs[i]) {
 										initOK = true
+									} else if len(x.Lhs) == 1 && len(x.Rhs) == 1 && c19StepsByOne(info, x) {
+										incs++ // `n += 1` / `n = n + 1`: the same step as `n++`
 									} else {
 										other++
 									}
@@ -1138,6 +1121,33 @@ func c19Merkle(c *rep.Ctx) {
 		c.Check("merkle-fill", cl.fn, f.Pos(), ok, "every element of the list, in slice order, becomes leaf i of the tree whose root is returned ("+why+")")
 	}
 	c.Floor("merkle-fill", 4)
+}
+
+// c19StepsByOne: the single assignment `v += 1`, `v = v + 1`, `v = 1 + v`
+// (any linear spelling, linOf) of a plain variable: the same step as `v++`.
+func c19StepsByOne(info *types.Info, as *ast.AssignStmt) bool {
+	if len(as.Lhs) != 1 || len(as.Rhs) != 1 {
+		return false
+	}
+	if _, isID := ast.Unparen(as.Lhs[0]).(*ast.Ident); !isID {
+		return false
+	}
+	r, ok := linOf(info, as.Rhs[0])
+	if !ok {
+		return false
+	}
+	switch as.Tok {
+	case token.ADD_ASSIGN:
+		return len(r) == 1 && r["1"] == 1
+	case token.ASSIGN:
+		l, ok := linOf(info, as.Lhs[0])
+		if !ok || len(l) != 1 {
+			return false
+		}
+		d := r.add(l, -1)
+		return len(d) == 1 && d["1"] == 1
+	}
+	return false
 }
 
 // c19FieldNilAtom: atom "nil" for `x.f == nil` / `x.f != nil`.
